@@ -115,6 +115,18 @@ func (s *Sched) timerPending() bool {
 	return true
 }
 
+// timerDue reports whether a pending timer's instant has already been reached.
+//
+//go:norace
+func (s *Sched) timerDue() bool {
+	for _, t := range s.timers {
+		if t.At <= s.clock && (s.cfg.Horizon <= 0 || t.At <= s.cfg.Horizon) {
+			return true
+		}
+	}
+	return false
+}
+
 // fireEarliest advances the clock to the earliest pending timer and fires it; ties are ordered by
 // the chooser.
 //
